@@ -260,34 +260,50 @@ def nontrivial(c):
     return len(ts) > 2
 
 
-def s2c(ctx, parsers, cases, budget_texts):
+def s2c(ctx, parsers, cases, budget_tokens):
+    """TatSu's cost grows with the length of the text (about 4 ms of CPU per token here): the budget is in tokens.
+    Every sequence of the fixed families is laid out; of the spine / statement families a seeded sample (the quick tier
+    leaves out sequences of more than 45 tokens); what is left of the budget goes into further layouts."""
     rng = random.Random(ctx.seed)
-    if budget_texts < len(cases):           # more token sequences than texts affordable: a seeded sample of them
-        fixed = [c for c in cases if c['fam'] not in ('spine', 'stmt')]
-        rest = [c for c in cases if c['fam'] in ('spine', 'stmt')]
-        rng.shuffle(rest)
-        cases = fixed + rest[:max(0, budget_texts - len(fixed))]
-    per = max(1, budget_texts // max(1, len(cases)))
-    extra = budget_texts - per * len(cases)
+    fixed = [c for c in cases if c['fam'] not in ('spine', 'stmt', 'without')]
+    rest = [c for c in cases if c['fam'] in ('spine', 'stmt', 'without') and (not ctx.quick or len(c['tokens']) <= 45)]
+    rng.shuffle(rest)
+    chosen = list(fixed)
+    used = sum(len(c['tokens']) + 1 for c in chosen)
+    for c in rest:
+        if used >= budget_tokens:
+            break
+        chosen.append(c)
+        used += len(c['tokens']) + 1
+    n_generated = len(cases)
+    cases = chosen
+    layouts = [1] * len(cases)
+    order = list(range(len(cases)))
+    rng.shuffle(order)
+    k = 0
+    while used < budget_tokens and order:          # second and third layouts of the same token sequences
+        ci = order[k % len(order)]
+        layouts[ci] += 1
+        used += len(cases[ci]['tokens']) + 1
+        k += 1
+        if k >= 3 * len(order):
+            break
     items = []
     meta = {}
     nboth = 0
-    order = list(range(len(cases)))
-    rng.shuffle(order)
-    more = set(order[:max(0, extra)])
     for ci, c in enumerate(cases):
-        n = per + (1 if ci in more else 0)
         expected = {'ok': c['ok'], 'ast': c['ast']}
-        for j in range(n):
+        for j in range(layouts[ci]):
             lr = random.Random('%d/%d/%d' % (ctx.seed, ci, j))
             if c['fam'] in ('lit', 'corner', 'chain', 'kwprefix') and j == 0:
                 text = B.layout(c['tokens'], lr, plain=True)
             else:
                 text = B.layout(c['tokens'], lr)
             cid = len(items)
-            # the generated parser source is byte-identical to the shipped parser.py: the same deterministic code, run on
-            # every 4th text only (and on every text of the C2S leg); otherwise on every text
-            both = (not parsers.identical) or cid % 4 == 0 or c['fam'] not in ('spine', 'stmt')
+            # when the generated parser source is byte-identical to the shipped parser.py the two are the same
+            # deterministic code: the derived one then runs on every 8th text here (and on every text of the C2S leg);
+            # otherwise on every text
+            both = (not parsers.identical) or cid % 8 == 0 or c['fam'] not in ('spine', 'stmt', 'without')
             nboth += both
             items.append((cid, text, expected, False, both))
             meta[cid] = (ci, text)
@@ -312,7 +328,7 @@ def s2c(ctx, parsers, cases, budget_texts):
     ctx.traces += len(items)
     for c in cases[:2] + cases[len(cases) // 2:len(cases) // 2 + 1]:
         ctx.sample({'leg': 'S2C', 'fam': c['fam'], 'text': B.layout(c['tokens'], None, plain=True)[:200], 'spec_ok': c['ok']})
-    ctx.leg('S2C', token_sequences=len(cases), texts=len(items), texts_parsed_by_both_parsers=nboth, texts_spec_accepts=accepted, texts_spec_rejects=rejected,
+    ctx.leg('S2C', token_sequences_generated=n_generated, token_sequences=len(cases), tokens=used, texts=len(items), texts_parsed_by_both_parsers=nboth, texts_spec_accepts=accepted, texts_spec_rejects=rejected,
             disagreements=bad, parse_wall_s=round(wall, 1), texts_per_s=round(len(items) / max(wall, 0.01)))
     ctx.log('S2C: %d texts (%d token sequences) parsed by the shipped parser, %d of them also by the derived one, in %.1fs; '
             '%d disagreements' % (len(items), len(cases), nboth, wall, bad))
@@ -462,7 +478,7 @@ def arbitrary_text(rng):
 def c2s(ctx, parsers, cases, n_mut, n_arb):
     rng = random.Random(ctx.seed + 1)
     vocab = vocabulary()
-    pool = [c for c in cases if c['ok'] and c['fam'] in ('spine', 'stmt', 'lit', 'corner')]
+    pool = [c for c in cases if c['ok'] and c['fam'] in ('spine', 'stmt', 'lit', 'corner') and len(c['tokens']) <= 40]
     kwp = [c for c in cases if c['fam'] == 'kwprefix']
     evs = []          # (tokens|None, text, fam)
     for i in range(n_mut):
@@ -607,12 +623,12 @@ def run(ctx):
         cases, fams = gen_cases(ctx)
         ctx.leg('GEN', families=fams)
         if not only or 'S2C' in only:
-            s2c(ctx, parsers, cases, int(os.environ.get('VERIF_C06_TEXTS', ctx.pick(25000, 140000))))
+            s2c(ctx, parsers, cases, int(os.environ.get('VERIF_C06_TOKENS', ctx.pick(240000, 1500000))))
         mc_join(mc_thread)
         mc_thread = None
         if not only or 'C2S' in only:
             scale = float(os.environ.get('VERIF_C06_C2S_SCALE', 1))       # development only
-            c2s(ctx, parsers, cases, int(ctx.pick(5000, 40000) * scale), int(ctx.pick(2000, 15000) * scale))
+            c2s(ctx, parsers, cases, int(ctx.pick(3500, 20000) * scale), int(ctx.pick(1500, 8000) * scale))
     finally:
         parsers.close()
         if mc_thread is not None:
